@@ -131,6 +131,22 @@ Proof.
   intros l Hl. rewrite !rec_of_load. apply Hr. exact Hl.
 Qed.
 
+Lemma sim_mark w1 w2 l : sim w1 w2 -> live w1 l = true \/ True ->
+  sim (set_rec w1 l (mark_rec (rec_of w1 l))) (set_rec w2 l (mark_rec (rec_of w1 l))).
+Proof. intros H _. apply sim_set_rec. exact H. Qed.
+
+(** the re-run marks of a killed build are applied identically in [sim]-related worlds, as far as any build can tell:
+    marks on labels that exist use equal records; marks on labels that do not exist are invisible to [sim] *)
+Lemma premark_sim c w1 w2 : sim w1 w2 -> sim (premark c w1) (premark c w2).
+Proof.
+  intros Hs. unfold premark. destruct (c_crashed c && negb (c_dry c)); [|exact Hs].
+  revert w1 w2 Hs. induction (c_premarked c) as [|l pm IH]; intros w1 w2 Hs; simpl; [exact Hs|].
+  apply IH. destruct (mem l (c_recorded c)); [exact Hs|].
+  destruct Hs as (Hp & Hf & Hn & Hr). split; [exact Hp|split; [exact Hf|split; [exact Hn|]]].
+  intros x Hx. rewrite !rec_of_set_rec. destruct (N.eqb_spec x l) as [->|Hne]; [|apply Hr; exact Hx].
+  unfold live in Hx. cbn [set_rec w_proj] in Hx. fold (live w1 l) in Hx. rewrite (Hr l Hx). reflexivity.
+Qed.
+
 Lemma build_sim c w1 w2 l :
   sim w1 w2 ->
   let o1 := build c w1 l in
@@ -140,7 +156,9 @@ Lemma build_sim c w1 w2 l :
 Proof.
   intros Hs. pose proof (load_sim _ _ Hs) as Hl. pose proof Hl as (Hp & _).
   unfold build. rewrite <- Hp. destruct (link_ok (w_proj (load w1))).
-  - apply run_order_sim. exact Hl.
+  - destruct (run_order_sim c (load w1) (load w2) (order_of (w_proj (load w1)) l) l Hl) as (H1 & H2 & H3 & H4 & H5).
+    cbn [o_events o_ran o_res o_bad o_w].
+    split; [exact H1|split; [exact H2|split; [exact H3|split; [exact H4|apply premark_sim; exact H5]]]].
   - simpl. split; [reflexivity|split; [reflexivity|split; [reflexivity|split; [reflexivity|exact Hl]]]].
 Qed.
 
